@@ -221,6 +221,7 @@ def emit(name, dsl, out):
     # headed states get a St<N> definition; injected ones a different base
     headed = [s for s in states if not (s.strat is not None and s.headless)]
     L.append('#define VF_FOR_EACH_STATE(X) ' + ' '.join('X(%d)' % s.id for s in headed))
+    L.append('#define VF_FOR_EACH_HEADED_REGION(X) ' + ' '.join('X(%d, %d)' % (s.region, s.id) for s in headed if s.strat is not None))     # (region id, id of its head state)
     L.append('#define VF_INJECTED(N) (' + ' || '.join(['false'] + ['N == %d' % s.id for s in headed if s.inj]) + ')')
     L.append('#define VF_STATE_TABLE \\')
     for s in states:
